@@ -1,5 +1,7 @@
 package main
 
+import "strings"
+
 type AuthSpec struct {
 	Origin, Client string
 	Challenge      []byte
@@ -107,6 +109,10 @@ func buildAssertion(r *RNG, s *AuthSpec) M {
 	if s.d("cd.type") {
 		cd.Type = variant(r, s.Var, []string{"webauthn.create", "", "webauthn.get ", "Webauthn.get", "webauthn.ge", "get"})
 	}
+	if s.d("cd.challengeLengthVariant") {
+		// the right challenge text followed by 256 or 512 more characters, or by NUL characters
+		cd.Challenge = b64u(s.Challenge) + pick(r, []string{strings.Repeat("A", 256), strings.Repeat("-", 512), "\x00", "\x00\x00\x00", strings.Repeat("\x00", 256)})
+	}
 	if s.d("cd.challenge") {
 		cd.Challenge = variant(r, s.Var, append([]string{b64u(append(append([]byte{}, s.Challenge...), 0)), stdB64(s.Challenge) + "=", "", b64u(s.Challenge[1:]), b64u(s.Challenge) + "A", hx(s.Challenge)}, nonCanonicalB64(b64u(s.Challenge))...))
 	}
@@ -187,12 +193,22 @@ func buildAssertion(r *RNG, s *AuthSpec) M {
 	if s.d("userHandle.missing") {
 		uh = nil
 	}
+	if s.d("userHandle.lengthVariant") {
+		// the owner's handle followed by more bytes: zeros, 256 or 512 arbitrary bytes (a comparison that pads, or that folds the
+		// length difference into one byte, takes these for the owner's handle); or the owner's handle cut to its first bytes
+		uh = pick(r, [][]byte{append(append([]byte{}, s.Owner...), 0), append(append([]byte{}, s.Owner...), make([]byte, 3)...),
+			append(append([]byte{}, s.Owner...), r.Bytes(256)...), append(append([]byte{}, s.Owner...), r.Bytes(512)...), s.Owner[:len(s.Owner)/2]})
+	}
 	if s.d("userHandle.empty") {
 		uh = []byte{}
 	}
 	allow := s.Allow
 	if s.d("allow.excludes") {
 		allow = [][]byte{r.Bytes(len(s.CredID)), r.Bytes(4)}
+	}
+	if s.d("allow.lengthVariant") {
+		// the list names ids that are the credential's id cut short or extended (by zeros, by 256 bytes): none of them is the credential's id
+		allow = [][]byte{append(append([]byte{}, s.CredID...), 0), append(append([]byte{}, s.CredID...), r.Bytes(256)...), s.CredID[:len(s.CredID)-1]}
 	}
 	var allowHex []string
 	for _, a := range allow {
@@ -219,6 +235,9 @@ func buildAssertion(r *RNG, s *AuthSpec) M {
 	}
 	if s.Inert != nil {
 		op["inert"] = s.Inert
+	}
+	if uh == nil {
+		op["userHandleNil"] = true // absent / null in the JSON: a nil slice, not an empty one
 	}
 	return op
 }
